@@ -53,10 +53,23 @@ def bounded(seed: int = 0, max_tokens: int = 4, widths: Optional[List[int]] = No
             if text in seen:
                 continue
             seen.add(text)
-            for w in widths:
+            first: Dict[int, Any] = {}
+            # ascending then descending, or the other way round: the result may not depend on the calls made before (a function of its
+            # arguments); every clause is checked on every call
+            order = list(widths) + list(reversed(widths))
+            if len(seen) % 2 == 0:
+                order = list(reversed(widths)) + list(widths)
+            for w in order:
                 cases += 1
                 why = check(text, w)
+                if why is None:
+                    got = wrap_text_into_lines(text, line_width=w)
+                    if w in first and first[w] != got:
+                        why = (f"the result depends on earlier calls: first {first[w]!r}, after calls with other "
+                               f"widths {got!r}")
+                    first.setdefault(w, got)
                 if why is not None and len(failures) < 3:
-                    failures.append({"text": text, "line_width": w, "observed": why})
+                    failures.append({"text": text, "line_width": w, "observed": why,
+                                     "history": "calls with widths " + ", ".join(map(str, order))})
     return {"cases": cases, "distinct": len(seen), "failures": failures, "exhaustive": True,
             "samples": [{"text": "the cat sat on a looooooooong mat", "line_width": 7}]}
